@@ -47,9 +47,11 @@ func (i mzInfo) Sys() any           { return nil }
 
 type mzIO struct{}
 
-func (mzIO) Path(f mzFile) string                 { return f.e.path }
-func (mzIO) Lstat(f mzFile) (os.FileInfo, error)  { return mzInfo{f.e}, nil }
-func (mzIO) Open(f mzFile) (io.ReadCloser, error) { return io.NopCloser(bytes.NewReader(f.e.data)), nil }
+func (mzIO) Path(f mzFile) string                { return f.e.path }
+func (mzIO) Lstat(f mzFile) (os.FileInfo, error) { return mzInfo{f.e}, nil }
+func (mzIO) Open(f mzFile) (io.ReadCloser, error) {
+	return io.NopCloser(bytes.NewReader(f.e.data)), nil
+}
 
 var mzVersion = module.MustNewVersion("example.com/m@v0", "v0.1.0")
 
@@ -98,10 +100,12 @@ func rawZip(entries []*mzEntry, hostile string) []byte {
 		hdr := &zip.FileHeader{Name: e.path, Method: zip.Deflate}
 		if e.typ == "symlink" {
 			hdr.SetMode(fs.ModeSymlink | 0o777)
+		} else if hostile == "dir-mode-on-file" && k == len(entries)-1 {
+			hdr.SetMode(fs.ModeDir | 0o755) // a named file that carries data and the directory mode bits
 		} else {
 			hdr.SetMode(0o644)
 		}
-		if hostile != "" && k == len(entries)-1 {
+		if (hostile == "declared-smaller" || hostile == "declared-larger") && k == len(entries)-1 {
 			// write the last entry raw with a lying declared size
 			var cbuf bytes.Buffer
 			fw, _ := flate.NewWriter(&cbuf, flate.DefaultCompression)
@@ -388,7 +392,7 @@ func checkC15(r *kit.Run) {
 			if zok != okZip && !(anyVerdict && !zok) {
 				r.Violation("zip verdict "+key, fmt.Sprintf("CheckZip acceptable=%v (%v %v), the package rules say %v", zok, zerr, zcf.Err(), okZip), map[string]any{"archive": names})
 			}
-			for _, hostile := range []string{"", "declared-smaller", "declared-larger", "dir-entry", "duplicate"} {
+			for _, hostile := range []string{"", "declared-smaller", "declared-larger", "dir-entry", "duplicate", "dir-mode-on-file"} {
 				hb := rawZip(es, hostile)
 				declared := map[string]uint64{}
 				if zr, err := zip.NewReader(bytes.NewReader(hb), int64(len(hb))); err == nil {
@@ -402,6 +406,24 @@ func checkC15(r *kit.Run) {
 				atomic.AddInt64(&hostileRuns, 1)
 				if problem != "" {
 					r.Violation("unzip unsafe "+key+" "+hostile, problem, map[string]any{"archive": names, "hostile": hostile})
+				}
+				if uerr == nil {
+					// whatever is extracted must be a file the zip check lists as valid
+					_, _, hcf, herr := modzip.CheckZip(mzVersion, bytes.NewReader(hb), int64(len(hb)))
+					hvalid := map[string]bool{}
+					for _, p := range hcf.Valid {
+						hvalid[p] = true
+					}
+					var extra []string
+					for p := range ex {
+						if !hvalid[p] {
+							extra = append(extra, p)
+						}
+					}
+					sort.Strings(extra)
+					if herr != nil || hcf.Err() != nil || len(extra) > 0 {
+						r.Violation("unzip beyond check "+key+" "+hostile, fmt.Sprintf("Unzip succeeds and writes %v, which CheckZip of the same bytes does not list as valid (check error: %v %v)", extra, herr, hcf.Err()), map[string]any{"archive": names, "hostile": hostile})
+					}
 				}
 				if uerr == nil && hostile == "" && !okZip && !anyVerdict {
 					r.Violation("unzip accepts "+key, "Unzip extracts an archive the checks reject", map[string]any{"archive": names, "extracted": sortedKeys2(ex)})
@@ -429,7 +451,7 @@ func checkC15(r *kit.Run) {
 	r.Set("distinct_nontrivial", int(nontrivial))
 	r.Set("canaries_rejected", int(caught))
 	r.Set("exhaustive", true)
-	r.Set("rule", "every subset of <= MaxEntries entries (TLC initial states of ModZip.tla with per-entry verdicts for file-list and zip checking); each is checked as a file list, as a directory (when representable), created+checked+unzipped (round trip) and, written raw with and without hostile headers (declared size smaller/larger, directory entry, duplicate name), checked and unzipped in a scratch directory that is walked afterwards; non-trivial = acceptable archives with more than one entry")
+	r.Set("rule", "every subset of <= MaxEntries entries (TLC initial states of ModZip.tla with per-entry verdicts for file-list and zip checking); each is checked as a file list, as a directory (when representable), created+checked+unzipped (round trip) and, written raw with and without hostile headers (declared size smaller/larger, directory entry, duplicate name, directory mode bits on a file entry), checked and unzipped in a scratch directory that is walked afterwards; non-trivial = acceptable archives with more than one entry")
 }
 
 func sortedKeys(m map[string]bool) []string {
